@@ -3,8 +3,39 @@ import json, os, sys
 from . import build as B, rustgen as R
 
 
+def replay_enum(rp):
+    from types import SimpleNamespace
+    v = rp["violation"]
+    es = v["spec"]["py"]["enum"]
+    ed = SimpleNamespace(name=es["name"], n=es["n"], exhaustive=es["exhaustive"], discs=[int(x, 16) for x in es["discs"]])
+    src = R.SHARD_PRELUDE + es["text"] + "\n" + R.enum_adapter(ed) + "\npub fn machines() -> Vec<Box<dyn regmc::Machine>> { vec![] }\n" \
+        + f"pub fn enums() -> Vec<Box<dyn regmc::EnumMachine>> {{ vec![Box::new(EM_{ed.name})] }}\n"
+    ws = B.workspace("replay", [src], {"machines": [], "enums": [es]})
+    ok, dt, diag = B.cargo_build(ws, "checked")
+    if not ok:
+        print("replay: the stored declaration no longer compiles:\n" + diag[-2000:])
+        return 1
+    tmp = os.path.join(ws, "violation.json")
+    json.dump(v, open(tmp, "w"))
+    rep = B.run(ws, "checked", "replay", ["--replay", tmp])
+    print(f"replay: {es['text']}")
+    for st in v["trace"]:
+        print("   ", st)
+    print(f"replay: expected {v['expect']}, observed {rep['extra'].get('observed')}")
+    if rep["extra"].get("nondeterministic"):
+        print("replay: NONDETERMINISTIC observations — machinery failure")
+        return 2
+    if rep["extra"].get("reproduces"):
+        print(f"VIOLATION property={rp.get('property')} replay={rp.get('_path')}")
+        return 1
+    print("replay: does not reproduce on the current tree")
+    return 0
+
+
 def replay_regmc(rp):
     v = rp["violation"]
+    if (v["spec"].get("py") or {}).get("enum"):
+        return replay_enum(rp)
     s = R.struct_from_spec(v["spec"])
     ws, ok, dt, diag = B.build_machine_set("replay", [s], "checked")
     if not ok:
